@@ -32,6 +32,9 @@ type c14Case struct {
 	Ext         string `json:"ext,omitempty"`
 	Challenge   string `json:"challenge,omitempty"`
 	Retry       bool   `json:"retry,omitempty"` // second dial with the same smtp.Auth object
+	// Salt2: when non-empty, the second attempt of a retry is served with this salt (same iteration
+	// count): e.g. the same account on a backup relay, or a re-salted account.
+	Salt2 []byte `json:"salt2,omitempty"`
 }
 
 func precisForbidden(s string) bool {
@@ -62,12 +65,25 @@ func c14Run(c c14Case) []*core.Violation {
 		handler = refsasl.CramMD5(acc, c.Challenge, res)
 	case wire == "XOAUTH2":
 		handler = refsasl.XOAuth2(acc, res)
-	case strings.HasPrefix(wire, "SCRAM-SHA-1"):
-		sp.Hash, sp.Plus = "SHA-1", strings.HasSuffix(wire, "-PLUS")
-		handler = refsasl.Scram(acc, sp, res)
-	case strings.HasPrefix(wire, "SCRAM-SHA-256"):
+	case strings.HasPrefix(wire, "SCRAM-SHA-"):
 		sp.Hash, sp.Plus = "SHA-256", strings.HasSuffix(wire, "-PLUS")
-		handler = refsasl.Scram(acc, sp, res)
+		if strings.HasPrefix(wire, "SCRAM-SHA-1") {
+			sp.Hash = "SHA-1"
+		}
+		h1 := refsasl.Scram(acc, sp, res)
+		sp2 := sp
+		if len(c.Salt2) > 0 {
+			sp2.Salt = c.Salt2
+		}
+		h2 := refsasl.Scram(acc, sp2, res)
+		exchanges := 0
+		handler = func(mech string, initial []byte, io *refsmtp.AuthIO, st *tls.ConnectionState) string {
+			exchanges++
+			if exchanges >= 2 {
+				return h2(mech, initial, io, st)
+			}
+			return h1(mech, initial, io, st)
+		}
 	default:
 		return []*core.Violation{core.V("HARNESS-mech", "unknown mechanism %q", c.Mech)}
 	}
@@ -261,13 +277,16 @@ func c14Gen(t *rapid.T) c14Case {
 	c.Ext = rapid.SampledFrom([]string{"", "", ",x=ext", ",foo=bar,baz=qux"}).Draw(t, "ext")
 	c.Challenge = "<" + rapid.StringMatching(`[0-9]{1,10}\.[0-9]{1,12}`).Draw(t, "chal") + "@" + rapid.SampledFrom([]string{"ref.verif.example", "postoffice.example.net", "h"}).Draw(t, "chalhost") + ">"
 	c.Retry = rapid.IntRange(0, 3).Draw(t, "retry") == 0
+	if c.Retry && rapid.Bool().Draw(t, "othersalt") {
+		c.Salt2 = rapid.SliceOfN(rapid.Byte(), 1, 32).Draw(t, "salt2")
+	}
 	return c
 }
 
 func TestC14(t *testing.T) {
 	rec := core.Rec("C14")
 	rec.Rule = "the real Client (DialWithContext, STARTTLS over in-memory connections where TLS is needed) authenticates against reference servers written from RFC 4616 (PLAIN), draft-murchison (LOGIN), RFC 2195 (CRAM-MD5), Google's XOAUTH2 format and RFC 5802/7677/9266 (SCRAM-SHA-1/-256 and the PLUS variants with tls-unique on TLS 1.2 and tls-exporter on TLS 1.3 taken from the server's own side of the very connection; own PBKDF2; validated on the RFC 5802/7677/6070 vectors). " +
-		"rapid draws account and client credentials from fragments {ASCII, ',' '=' '=2C' '=3D' blanks, quotes, backslash, 'n=' 'r=' 'p=', Unicode letters that are fixed points of SASLprep and PRECIS, TAB/0x01/DEL, empty}, wrong-credential twins (other password, other user, near misses), salts of 1..64 bytes, iteration counts 1..20000, server nonce suffixes, extensions after i=, CRAM challenges, TLS none/1.2/1.3, and a retry on the same smtp.Auth object. " +
+		"rapid draws account and client credentials from fragments {ASCII, ',' '=' '=2C' '=3D' blanks, quotes, backslash, 'n=' 'r=' 'p=', Unicode letters that are fixed points of SASLprep and PRECIS, TAB/0x01/DEL, empty}, wrong-credential twins (other password, other user, near misses), salts of 1..64 bytes, iteration counts 1..20000, server nonce suffixes, extensions after i=, CRAM challenges, TLS none/1.2/1.3, and a retry on the same smtp.Auth object (optionally against another salt with the same iteration count). " +
 		"Oracle: verifier accepts <=> credentials are the account's; right credentials => dial succeeds; wrong => error; no message the verifier finds malformed; SCRAM client nonces pairwise distinct and >= 18 characters; PLUS uses the binding type that fits the TLS version. A local refusal of PRECIS-forbidden strings (control characters, empty) by SCRAM is a permitted third outcome, counted separately and never non-trivial. " +
 		"Non-trivial: credentials with a non-alphanumeric character, iterations > 1, or a PLUS mechanism. Distinct by (mechanism, TLS, credentials, salt length, iterations, suffix, extensions, challenge, retry)."
 	rec.Assumptions = []string{"Unicode credentials are restricted to fixed points of SASLprep and PRECIS OpaqueString (no independent normaliser is available offline)", "NUL is not generated (outside the property's quantifier), nor is ^A for XOAUTH2 (its field separator)"}
